@@ -6,6 +6,10 @@ import Splipy.Lemmas.C14Through
 import Splipy.Lemmas.C14LsqGrid
 import Splipy.Lemmas.C14Loft
 import Splipy.Lemmas.C14Bezier
+import Splipy.Lemmas.C14Lsq
+import Splipy.Lemmas.C14Free
+import Splipy.Lemmas.C14Energy
+import Splipy.Lemmas.C14Periodic
 import Mathlib.Data.Rat.Floor
 import Mathlib.Tactic.IntervalCases
 import Mathlib.Tactic.NormNum
@@ -676,6 +680,40 @@ theorem C14_cubic_boundary (bd : ℕ) (tol rt atl : K) (x : Mat K) (t : List K) 
             exact this
           rw [this]
 
+/-- **`cubic_curve(x, FREE, t)` needs no solvability hypothesis**: for EVERY parameter sequence
+`t₀ < t₁ < … < t_{n−1}` (`n ≥ 4`, consecutive values at least the knot tolerance apart) and any
+`n × dim` data the not-a-knot system is solvable (the data parameters are nested in the supports of
+the not-a-knot basis: Schoenberg–Whitney), the model SUCCEEDS, and the result interpolates:
+`Σ_l N_l(t_i) · cp_l = x_i`. -/
+theorem C14_cubic_FREE_exists [IsStrictOrderedRing K] (a b c d : K) (mid : List K) (tol rt atl : K)
+    (htol : 0 < tol)
+    (hgap : (a :: b :: (mid ++ [c, d])).Pairwise (fun u w => u + tol ≤ w))
+    (x : Mat K) (m : ℕ) (hxs : x.size = mid.length + 4 ∧ ∀ i, i < mid.length + 4 → (x.getD i #[]).size = m)
+    (tg : Option (Mat K)) :
+    ∃ basis cp, cubicCurve bFREE tol rt atl x (a :: b :: (mid ++ [c, d])) tg = .ok (basis, cp) ∧
+      ∀ i < mid.length + 4, ∀ j < cp.ncols,
+        ∑ l ∈ range basis.numFunctions,
+          (basis.evaluate tol ((a :: b :: (mid ++ [c, d])).getD i 0) 0 true).getD l 0 * cp.get l j = x.get i j := by
+  have hlen : (a :: b :: (mid ++ [c, d])).length = mid.length + 4 := by simp
+  have hgap' : ∀ i j, i < j → j < mid.length + 4 →
+      (a :: b :: (mid ++ [c, d])).getD i 0 + tol ≤ (a :: b :: (mid ++ [c, d])).getD j 0 := by
+    intro i j hij hj
+    have hi : i < (a :: b :: (mid ++ [c, d])).length := by omega
+    have hj' : j < (a :: b :: (mid ++ [c, d])).length := by omega
+    have := List.pairwise_iff_getElem.mp hgap i j hi hj' hij
+    rw [List.getD_eq_getElem?_getD, List.getD_eq_getElem?_getD, List.getElem?_eq_getElem hi,
+      List.getElem?_eq_getElem hj']
+    exact this
+  obtain ⟨cp, hcp⟩ := cubicCurve_FREE_ok a b c d mid tol rt atl htol hgap' x m hxs tg
+  refine ⟨_, cp, hcp, fun i hi j hj => ?_⟩
+  obtain ⟨eN, eR, _, _, _, _, _, _, hint, _⟩ := C14_cubic_boundary _ _ _ _ _ _ _ _ _ hcp
+  have hne : bFREE ≠ bPERIODIC := by decide
+  simp only [hne, if_false] at hint
+  have := hint i (by rw [hlen]; exact hi) j hj
+  rw [this]
+  unfold cubicClose
+  simp [hne]
+
 omit [LinearOrder K] [FloorRing K] in
 private theorem get_zero_rows (m dim i j : ℕ) :
     Mat.get (Array.replicate m (Array.replicate dim (0 : K))) i j = 0 := by
@@ -727,6 +765,50 @@ theorem C14_cubic_NATURAL (tol rt atl : K) (x : Mat K) (t : List K) (tg : Option
     rw [get_zero_rows] at this
     refine (sum_congr rfl (fun l _ => ?_)).trans this
     · ( rw [get_colloc _ _ _ _ 1 l (by simp)]; simp)
+
+/-- **`cubic_curve(x, NATURAL, t)` needs no solvability hypothesis**: for EVERY parameter sequence
+`t₀ < … < t_{n−1}` (`n ≥ 2`, consecutive values at least the knot tolerance apart) and any `n × dim`
+data the `(n+2) × (n+2)` system (interpolation rows + `s''(t₀) = s''(t_{n−1}) = 0`) is solvable and the
+model SUCCEEDS.  Uniqueness of the natural spline is proved by the (purely algebraic) energy argument
+`Interp.natural_unique`: `Σ_spans (h/3)(u² + uv + v²) = [s's'']` telescopes to `0`.  The result
+interpolates and has vanishing second derivative at both ends. -/
+theorem C14_cubic_NATURAL_exists [IsStrictOrderedRing K] (a d : K) (mid : List K) (tol rt atl : K)
+    (htol : 0 < tol)
+    (hgap : (a :: (mid ++ [d])).Pairwise (fun u w => u + tol ≤ w))
+    (x : Mat K) (m : ℕ) (hxs : x.size = mid.length + 2 ∧ ∀ i, i < mid.length + 2 → (x.getD i #[]).size = m)
+    (tg : Option (Mat K)) :
+    ∃ basis cp, cubicCurve bNATURAL tol rt atl x (a :: (mid ++ [d])) tg = .ok (basis, cp) ∧
+      (∀ i < mid.length + 2, ∀ j < cp.ncols,
+        ∑ l ∈ range basis.numFunctions,
+          (basis.evaluate tol ((a :: (mid ++ [d])).getD i 0) 0 true).getD l 0 * cp.get l j = x.get i j) ∧
+      (∀ j < cp.ncols,
+        (∑ l ∈ range basis.numFunctions, (basis.evaluate tol a 2 true).getD l 0 * cp.get l j = 0) ∧
+        (∑ l ∈ range basis.numFunctions, (basis.evaluate tol d 2 true).getD l 0 * cp.get l j = 0)) := by
+  have hlen : (a :: (mid ++ [d])).length = mid.length + 2 := by simp
+  have hgap' : ∀ i j, i < j → j < mid.length + 2 →
+      (a :: (mid ++ [d])).getD i 0 + tol ≤ (a :: (mid ++ [d])).getD j 0 := by
+    intro i j hij hj
+    have hi : i < (a :: (mid ++ [d])).length := by omega
+    have hj' : j < (a :: (mid ++ [d])).length := by omega
+    have := List.pairwise_iff_getElem.mp hgap i j hi hj' hij
+    rw [List.getD_eq_getElem?_getD, List.getD_eq_getElem?_getD, List.getElem?_eq_getElem hi,
+      List.getElem?_eq_getElem hj']
+    exact this
+  obtain ⟨cp, hcp⟩ := cubicCurve_NATURAL_ok_of_unique a d mid tol rt atl htol hgap'
+    (natural_unique a d mid tol htol hgap') x m hxs tg
+  refine ⟨_, cp, hcp, fun i hi j hj => ?_, fun j hj => ?_⟩
+  · obtain ⟨eN, eR, _, _, _, _, _, _, hint, _⟩ := C14_cubic_boundary _ _ _ _ _ _ _ _ _ hcp
+    have hne : bNATURAL ≠ bPERIODIC := by decide
+    simp only [hne, if_false] at hint
+    have := hint i (by rw [hlen]; exact hi) j hj
+    rw [this]
+    unfold cubicClose
+    simp [hne]
+  · have := C14_cubic_NATURAL tol rt atl x (a :: (mid ++ [d])) tg _ cp hcp j hj
+    have h1 : (a :: (mid ++ [d])).headD 0 = a := rfl
+    have h2 : (a :: (mid ++ [d])).getLastD 0 = d := by simp [List.getLastD]
+    rw [h1, h2] at this
+    exact this
 
 /-- `HERMITE`: the first derivative of the result at EVERY data parameter equals the prescribed tangent. -/
 theorem C14_cubic_HERMITE (tol rt atl : K) (x : Mat K) (t : List K) (tg : Option (Mat K))
@@ -782,31 +864,8 @@ theorem C14_cubic_TANGENTNATURAL (tol rt atl : K) (x : Mat K) (t : List K) (tg :
 — the knot vector is `t₀⁴, t₂ … t_{n−3}, t_{n−1}⁴` — so the cubic pieces on either side of them are one
 polynomial and every derivative (in particular the third) is continuous there. -/
 theorem C14_cubic_FREE_knots (a b c d : K) (mid : List K) :
-    cubicKnots bFREE (a :: b :: (mid ++ [c, d])) = .ok ([a, a, a, a] ++ mid ++ [d, d, d, d]) := by
-  have e0 : pyGet (a :: b :: (mid ++ [c, d])) 0 = .ok a := pyGet_nat _ 0 (by simp)
-  have e9 : pyGet (a :: b :: (mid ++ [c, d])) (-1) = .ok d := by
-    have := pyGet_neg (a :: b :: (mid ++ [c, d])) 1 (by omega) (by simp)
-    simpa using this
-  have e1 : List.replicate 3 a ++ (a :: b :: (mid ++ [c, d])) ++ List.replicate 3 d
-      = ([a, a, a, a, b] ++ mid) ++ (c :: [d, d, d, d]) := by
-    simp [List.replicate]
-  unfold cubicKnots
-  simp only [e0, e9, bind, Except.bind, pure, Except.pure, bFREE, if_true]
-  rw [e1]
-  have hd1 := pyDel_neg (([a, a, a, a, b] ++ mid) ++ (c :: [d, d, d, d])) 5 (by omega)
-    (by simp only [List.length_append, List.length_cons, List.length_nil]; omega)
-  have hidx : (([a, a, a, a, b] ++ mid) ++ (c :: [d, d, d, d])).length - 5 = ([a, a, a, a, b] ++ mid).length := by
-    simp only [List.length_append, List.length_cons, List.length_nil]; omega
-  rw [hidx, List.eraseIdx_append_of_length_le (Nat.le_refl _), Nat.sub_self, List.eraseIdx_cons_zero] at hd1
-  have hd1' : pyDel (([a, a, a, a, b] ++ mid) ++ (c :: [d, d, d, d])) (-5)
-      = .ok ([a, a, a, a, b] ++ mid ++ [d, d, d, d]) := by simpa using hd1
-  rw [hd1']
-  simp only
-  have hd2 := pyDel_nat ([a, a, a, a, b] ++ mid ++ [d, d, d, d]) 4
-    (by simp only [List.length_append, List.length_cons, List.length_nil]; omega)
-  have : pyDel ([a, a, a, a, b] ++ mid ++ [d, d, d, d]) 4 = .ok ([a, a, a, a] ++ mid ++ [d, d, d, d]) := by
-    simpa using hd2
-  exact this
+    cubicKnots bFREE (a :: b :: (mid ++ [c, d])) = .ok ([a, a, a, a] ++ mid ++ [d, d, d, d]) :=
+  cubicKnots_FREE a b c d mid
 
 /-! ## The raw Gauss–Jordan model, the specification `B`, and Schoenberg–Whitney -/
 
@@ -985,6 +1044,55 @@ theorem C14_interpolate_curve_greville {b : Basis K} (hv : b.Valid) (hper : b.pe
   rw [hget i hi] at this
   exact this
 
+/-- **`least_square_fit` needs no solvability hypothesis.**  Valid clamped non-periodic basis of order
+`p ≥ 2` with continuous splines; `m ≥ n` sample points `ts` that CONTAIN (at positions
+`idx 0, …, idx (n−1)`) exact nested collocation points in the sense of Schoenberg–Whitney
+(`NestedPts`: first = domain start, last = domain end, increasing, `τ_l < t_{idx l} < τ_{l+p}`); any
+`m × dim` data.  Then the collocation matrix has full column rank, `NᵀN` is invertible
+(`xᵀNᵀNx = Σ (Nx)ᵢ²` over an ordered field), and the model's Gauss–Jordan solve of the normal
+equations SUCCEEDS. -/
+theorem C14_lsq_exists {b : Basis K} (hv : b.Valid) (hper : b.periodic = -1)
+    (hp : 2 ≤ b.order) (hc0 : b.kn 0 = b.kn (b.order - 1))
+    (hc1 : b.kn b.numFunctions = b.kn (b.numFunctions + (b.order - 1)))
+    (hmult : ∀ i, 1 ≤ i → i < b.numFunctions → b.kn i < b.kn (i + (b.order - 1)))
+    {tol : K} (htol : 0 < tol) (ts : List K) (idx : ℕ → ℕ)
+    (hidx : ∀ l, l < b.numFunctions → idx l < ts.length)
+    (hx : NestedPts b.kn (b.order - 1) b.numFunctions (fun l => ts.getD (idx l) 0))
+    (hex : ∀ l, l < b.numFunctions → b.ExactAt tol (ts.getD (idx l) 0))
+    (x : Mat K) (m : ℕ) (hxs : x.size = ts.length ∧ ∀ i, i < ts.length → (x.getD i #[]).size = m) :
+    ∃ c, leastSquareCurve b tol ts x = .ok c :=
+  leastSquareCurve_ok hv hper hp hc0 hc1 hmult htol ts idx hidx hx hex x m hxs
+
+/-- **Least squares reproduces splines of the space — no solvability hypothesis.**  Under the
+hypotheses of `C14_lsq_exists`, if the data are sampled from a spline of the target space,
+`x_i = Σ_l N_l(ts_i) · c0_l`, then `least_square_fit` succeeds and returns exactly `c0`. -/
+theorem C14_lsq_reproduces {b : Basis K} (hv : b.Valid) (hper : b.periodic = -1)
+    (hp : 2 ≤ b.order) (hc0 : b.kn 0 = b.kn (b.order - 1))
+    (hc1 : b.kn b.numFunctions = b.kn (b.numFunctions + (b.order - 1)))
+    (hmult : ∀ i, 1 ≤ i → i < b.numFunctions → b.kn i < b.kn (i + (b.order - 1)))
+    {tol : K} (htol : 0 < tol) (ts : List K) (idx : ℕ → ℕ)
+    (hidx : ∀ l, l < b.numFunctions → idx l < ts.length)
+    (hx : NestedPts b.kn (b.order - 1) b.numFunctions (fun l => ts.getD (idx l) 0))
+    (hex : ∀ l, l < b.numFunctions → b.ExactAt tol (ts.getD (idx l) 0))
+    (x : Mat K) (m : ℕ) (hxs : x.size = ts.length ∧ ∀ i, i < ts.length → (x.getD i #[]).size = m)
+    (c0 : ℕ → ℕ → K)
+    (hdata : ∀ i < ts.length, ∀ j, x.get i j =
+      ∑ l ∈ range b.numFunctions, (b.evaluate tol (ts.getD i 0) 0 true).getD l 0 * c0 l j) :
+    ∃ c, leastSquareCurve b tol ts x = .ok c ∧
+      ∀ l < b.numFunctions, ∀ j < c.ncols, c.get l j = c0 l j := by
+  obtain ⟨c, hc⟩ := leastSquareCurve_ok hv hper hp hc0 hc1 hmult htol ts idx hidx hx hex x m hxs
+  obtain ⟨_, _, Gi, hGi⟩ := normal_invC_ok hv hper hp hc0 hc1 hmult htol ts idx hidx hx hex
+  have hn : 0 < b.numFunctions := by
+    have := hv.order_le_nAll
+    have := Basis.numFunctions_of_nonperiodic hper
+    omega
+  have hne : ts ≠ [] := by
+    intro h0
+    have := hidx 0 hn
+    rw [h0] at this
+    simp at this
+  exact ⟨c, hc, C14_projection_least_squares b tol ts x c Gi c0 hne hGi hdata hc⟩
+
 /-- Default Greville parameters without the exactness assumption: if distinct knots are at least
 `2(p−1)·tol` apart (so that `snap` cannot destroy the nesting), interpolation SUCCEEDS. -/
 theorem C14_interpolate_curve_greville_succeeds {b : Basis K} (hv : b.Valid) (hper : b.periodic = -1)
@@ -1018,6 +1126,37 @@ theorem C14_interpolate_surface_greville_succeeds {bu bv : Basis K}
     ∃ cp, interpolateGrid [bu, bv] tol none x = .ok cp ∧ interpolateGridCore [bu, bv] tol none x = .ok cp :=
   interpolateGrid_ok_greville_surface hvu hperu hpu hc0u hc1u hmultu hvv hperv hpv hc0v hc1v hmultv htol
     hgapu hgapv x d hx
+
+/-- **Periodic interpolation, dominant diagonal** (partial: a sufficient condition, not all
+non-singular periodic collocation problems).  For a valid periodic basis and `n` exact parameters
+(wrapped images exact) the collocation matrix is row-stochastic (C01: non-negative, rows sum to one);
+if each diagonal entry `N_i(t_i)` exceeds `1/2` it is strictly diagonally dominant, hence injective
+(Levy–Desplanques), and `curve_factory.interpolate` SUCCEEDS.
+Missing for the full periodic case: parameters whose matrix is non-singular without a dominant
+diagonal (needs a periodic total-positivity / Schoenberg–Whitney argument). -/
+theorem C14_interpolate_periodic_partial {b : Basis K} (hv : b.Valid) (hper : 0 ≤ b.periodic)
+    {tol : K} (htol : 0 < tol) (ts : List K) (hlen : ts.length = b.numFunctions)
+    (hex : ∀ i < b.numFunctions, b.ExactAt tol (ts.getD i 0))
+    (hexw : ∀ i < b.numFunctions, b.ExactAt tol (b.wrap (ts.getD i 0)))
+    (hdiag : ∀ i < b.numFunctions, 1 / 2 < (b.evaluate tol (ts.getD i 0) 0 true).getD i 0)
+    (x : Mat K) (m : ℕ) (hxs : x.size = b.numFunctions ∧ ∀ i, i < b.numFunctions → (x.getD i #[]).size = m) :
+    ∃ c, interpolateCurve b tol (some ts) x = .ok c :=
+  interpolateCurve_ok_of_diag hv hper htol ts hlen hex hexw hdiag x m hxs
+
+/-- **Periodic interpolation on uniform knots at the Greville points** (partial: cubic, `C²`, i.e.
+`order = 4`, `periodic = 2`).  Knots `s0 + h·i`, knot spacing `h ≥ tol`, any number `n ≥ 1` of basis
+functions, any `n × dim` data: the Greville points are knots (the first one wraps around the seam), the
+collocation matrix is the circulant `(1/6, 2/3, 1/6)` (for `n ≤ 2` with coinciding wrapped images),
+its diagonal is `≥ 2/3`, and `curve_factory.interpolate(x, basis)` SUCCEEDS — no solvability
+hypothesis.  Missing: the uniform quadratic (`3/4` at the midpoints) and linear cases, lower
+continuity, and non-uniform periodic knot vectors. -/
+theorem C14_interpolate_periodic_uniform_cubic_partial {b : Basis K} (hv : b.Valid)
+    (hord : b.order = 4) (hper : b.periodic = 2) (s0 h : K) (hh : 0 < h)
+    (hkn : ∀ i, i < b.knots.size → b.kn i = s0 + h * (i : K))
+    {tol : K} (htol : 0 < tol) (htolh : tol ≤ h)
+    (x : Mat K) (m : ℕ) (hxs : x.size = b.numFunctions ∧ ∀ i, i < b.numFunctions → (x.getD i #[]).size = m) :
+    ∃ c, interpolateCurve b tol none x = .ok c :=
+  interpolateCurve_ok_uniform_periodic_cubic hv hord hper s0 h hh hkn htol htolh x m hxs
 
 end Spec
 
@@ -1117,5 +1256,91 @@ example : ∃ c, interpolateCurve bq tolQ none pts4 = .ok c ∧
     have hi' : i < 7 := hi
     interval_cases l <;> interval_cases i <;>
       norm_num [grevilleAbscissa, grevilleSum, Finset.sum_range_succ, Basis.kn, bq, tolQ, abs_of_nonneg, abs_of_neg]
+
+-- C14_lsq_exists / C14_lsq_reproduces: three sample points 0, 1/2, 1 for the linear basis; the nested
+-- subsequence is (0, 1)
+private theorem bl_valid : bl.Valid where
+  order_pos := by decide
+  size_ge := by decide
+  sorted := by
+    intro i hi
+    have hi' : i + 1 < 4 := hi
+    have hi'' : i < 3 := by omega
+    interval_cases i <;> norm_num [Basis.kn, bl]
+  periodic_ge := by decide
+  periodic_le := by decide
+  start_lt_stop := by norm_num [Basis.start, Basis.stop, Basis.kn, bl]
+  ghosts := fun h => absurd h (by decide)
+
+example : ∃ c, leastSquareCurve bl tolQ [0, 1/2, 1] #[#[0], #[1], #[2]] = .ok c := by
+  have hn : bl.numFunctions = 2 := by decide
+  apply C14_lsq_exists bl_valid (by decide) (by decide) (by norm_num [Basis.kn, bl])
+    (by rw [hn]; norm_num [Basis.kn, bl])
+    (by
+      intro i h1 h2
+      rw [hn] at h2
+      interval_cases i; norm_num [Basis.kn, bl])
+    (by norm_num [tolQ]) [0, 1/2, 1] (fun l => 2 * l) _ _ _ #[#[0], #[1], #[2]] 1
+  · refine ⟨rfl, fun i hi => ?_⟩
+    have hi' : i < 3 := hi
+    interval_cases i <;> rfl
+  · intro l hl
+    rw [hn] at hl
+    interval_cases l <;> simp
+  · rw [hn]
+    exact { first := by norm_num [Basis.kn, bl], last := by norm_num [Basis.kn, bl],
+            lt_succ := fun l hl => by (have : l = 0 := by omega); subst this; norm_num,
+            nest := fun l h1 h2 => by omega }
+  · intro l hl i hi
+    rw [hn] at hl
+    have hi' : i < 4 := hi
+    interval_cases l <;> interval_cases i <;> norm_num [Basis.kn, bl, tolQ]
+
+-- C14_cubic_FREE_exists: five strictly increasing parameters
+example :=
+  C14_cubic_FREE_exists (K := ℚ) 0 1 3 7 [5/2] tolQ 0 (1/100000000) (by norm_num [tolQ])
+    (by norm_num [tolQ]) #[#[0, 0], #[1, 2], #[3, 1], #[4, 0], #[5, 5]] 2
+    ⟨rfl, fun i hi => by (have hi' : i < 5 := hi); interval_cases i <;> rfl⟩ none
+
+-- C14_cubic_NATURAL_exists: four strictly increasing parameters
+example :=
+  C14_cubic_NATURAL_exists (K := ℚ) 0 7 [1, 5/2] tolQ 0 (1/100000000) (by norm_num [tolQ])
+    (by norm_num [tolQ]) #[#[0, 0], #[1, 2], #[3, 1], #[4, 0]] 2
+    ⟨rfl, fun i hi => by (have hi' : i < 4 := hi); interval_cases i <;> rfl⟩ none
+
+-- C14_interpolate_periodic_uniform_cubic_partial: uniform C² periodic cubic basis with 4 functions
+private def bper : Basis ℚ := { order := 4, knots := #[-3, -2, -1, 0, 1, 2, 3, 4, 5, 6, 7], periodic := 2 }
+
+private theorem bper_valid : bper.Valid where
+  order_pos := by decide
+  size_ge := by decide
+  sorted := by
+    intro i hi
+    have hi' : i + 1 < 11 := hi
+    have hi'' : i < 10 := by omega
+    interval_cases i <;> norm_num [Basis.kn, bper]
+  periodic_ge := by decide
+  periodic_le := by decide
+  start_lt_stop := by norm_num [Basis.start, Basis.stop, Basis.kn, bper]
+  ghosts := by
+    intro _ i hi
+    have hn : bper.numFunctions = 4 := by decide
+    rw [hn] at hi ⊢
+    have hi' : i + 4 < 11 := hi
+    have hi'' : i < 7 := by omega
+    interval_cases i <;>
+      norm_num [Basis.start, Basis.stop, Basis.kn, bper]
+
+example : ∃ c, interpolateCurve bper tolQ none pts4 = .ok c := by
+  have hn : bper.numFunctions = 4 := by decide
+  apply C14_interpolate_periodic_uniform_cubic_partial bper_valid rfl rfl (-3) 1 (by norm_num)
+    (by
+      intro i hi
+      have hi' : i < 11 := hi
+      interval_cases i <;> norm_num [Basis.kn, bper])
+    (by norm_num [tolQ]) (by norm_num [tolQ]) pts4 2
+  refine ⟨by rw [hn]; rfl, fun i hi => ?_⟩
+  rw [hn] at hi
+  interval_cases i <;> rfl
 
 end NonVacuity
